@@ -355,8 +355,21 @@ int x509_crl_entry_ext_from_der_ex(int *oid, int *critical,
 	return 1;
 }
 
+
+// ctime() formats into one static buffer shared by all threads
+static const char *x509_ctime(const time_t *tv, char buf[32])
+{
+#if defined(WIN32) || defined(_WIN32)
+	if (ctime_s(buf, 32, tv) != 0) return "(null)\n";
+#else
+	if (!ctime_r(tv, buf)) return "(null)\n";
+#endif
+	return buf;
+}
+
 int x509_crl_entry_ext_print(FILE *fp, int fmt, int ind, const char *label, const uint8_t *d, size_t dlen)
 {
+	char tbuf[32];
 	int ret, oid, critical;
 	const uint8_t *v;
 	size_t vlen;
@@ -384,7 +397,7 @@ int x509_crl_entry_ext_print(FILE *fp, int fmt, int ind, const char *label, cons
 			error_print();
 			return -1;
 		}
-		format_print(fp, fmt, ind, "invalidityDate: %s", ctime(&invalidity_date));
+		format_print(fp, fmt, ind, "invalidityDate: %s", x509_ctime(&invalidity_date, tbuf));
 
 	} else if (oid == OID_ce_certificate_issuer) {
 		const uint8_t *gns;
@@ -616,6 +629,7 @@ int x509_revoked_cert_from_der_ex(
 
 int x509_revoked_cert_print(FILE *fp, int fmt, int ind, const char *label, const uint8_t *d, size_t dlen)
 {
+	char tbuf[32];
 	int ret;
 	const uint8_t *p;
 	size_t len;
@@ -627,7 +641,7 @@ int x509_revoked_cert_print(FILE *fp, int fmt, int ind, const char *label, const
 	if (asn1_integer_from_der(&p, &len, &d, &dlen) != 1) goto err;
 	format_bytes(fp, fmt, ind, "userCertificate", p, len);
 	if (x509_time_from_der(&tv, &d, &dlen) != 1) goto err;
-	format_print(fp, fmt, ind, "revocationDate: %s", ctime(&tv));
+	format_print(fp, fmt, ind, "revocationDate: %s", x509_ctime(&tv, tbuf));
 	if ((ret = asn1_sequence_from_der(&p, &len, &d, &dlen)) < 0) goto err;
 	if (ret) x509_crl_entry_exts_print(fp, fmt, ind, "crlEntryExtensions", p, len);
 	if (asn1_length_is_zero(dlen) != 1) goto err;
@@ -1323,6 +1337,7 @@ int x509_tbs_crl_from_der(
 
 int x509_tbs_crl_print(FILE *fp, int fmt, int ind, const char *label, const uint8_t *d, size_t dlen)
 {
+	char tbuf[32];
 	int ret, val;
 	const uint8_t *p;
 	size_t len;
@@ -1338,9 +1353,9 @@ int x509_tbs_crl_print(FILE *fp, int fmt, int ind, const char *label, const uint
 	if (x509_name_from_der(&p, &len, &d, &dlen) != 1) goto err;
 	x509_name_print(fp, fmt, ind, "issuer", p, len);
 	if (x509_time_from_der(&tv, &d, &dlen) != 1) goto err;
-	format_print(fp, fmt, ind, "thisUpdate: %s", ctime(&tv));
+	format_print(fp, fmt, ind, "thisUpdate: %s", x509_ctime(&tv, tbuf));
 	if ((ret = x509_time_from_der(&tv, &d, &dlen)) < 0) goto err;
-	if (ret) format_print(fp, fmt, ind, "nextUpdate: %s", ctime(&tv));
+	if (ret) format_print(fp, fmt, ind, "nextUpdate: %s", x509_ctime(&tv, tbuf));
 	if ((ret = asn1_sequence_from_der(&p, &len, &d, &dlen)) < 0) goto err;
 	if (ret) x509_revoked_certs_print(fp, fmt, ind, "revokedCertificates", p, len);
 	if ((ret = x509_explicit_exts_from_der(0, &p, &len, &d, &dlen)) < 0) goto err;
